@@ -7,6 +7,7 @@ import (
 	"fmt"
 	"sync"
 
+	"github.com/elementsproject/peerswap/lightning"
 	"github.com/elementsproject/peerswap/log"
 	"github.com/elementsproject/peerswap/premium"
 
@@ -964,7 +965,8 @@ func (s *SwapService) lockSwap(swapId, channelId string, fsm *SwapStateMachine) 
 
 	// Check if we already have an active swap on the same channel
 	for id, swap := range s.activeSwaps {
-		if swap.Data.GetScid() == channelId {
+		// Channel ids may be written with 'x' (CLN) or ':' (LND) separators.
+		if lightning.Scid(swap.Data.GetScid()).ClnStyle() == lightning.Scid(channelId).ClnStyle() {
 			return ActiveSwapError{channelId: channelId, swapId: id}
 		}
 	}
